@@ -21,7 +21,15 @@ def declVerdict : Matcher → St → Bool
   | .failed _, _ => false
 
 /-- the declared effect of matching on the Deferred: none, except that `succeeded`/`failed` mark an
-inspected failure as handled (the result becomes `None`) -/
+inspected failure as handled (the result becomes `None`).
+
+READING (audit/C20 V1).  The property says that matching "leaves an unfired Deferred and a successful result intact" and that "a
+failure inspected by succeeded() or failed() is marked handled"; it deliberately does not say that a FAILED result stays intact.
+The only way to mark a failure handled is the errback `lambda _: None`, which consumes it: afterwards the Deferred's current
+result is a successful `None`.  So matching a failed Deferred changes its state, and a second matcher applied to the same Deferred
+classifies the NEW state (`succeeded(Always())` then matches, `failed(…)` does not, `extract_result` returns `None`).  The
+"exactly one of" / "iff" clauses are therefore claimed - and checked (`classify` works on three replicas of the Deferred) - per
+Deferred STATE at the moment of matching, not for several matchers applied in a row to one failed Deferred. -/
 def declAfter (m : Matcher) (d : D) : D :=
   match m, d.st with
   | .noResult, _ => d
@@ -70,7 +78,12 @@ def cVerdicts : Input → Trace → Bool
     ((ops.zip obs).filter isVerdict) == ((ops.zip (declRun D.new ops).2).filter isVerdict)
   | _, _ => true
 
-/-- exactly one of `has_no_result()`, `succeeded(Always())`, `failed(Always())` matches, as the state says -/
+/-- exactly one of `has_no_result()`, `succeeded(Always())`, `failed(Always())` matches, as the state says.
+
+READING (audit/C20 V3).  "Fired" is read as "a result is deliverable to a newly added callback": the helpers learn the state by
+adding a callback pair and seeing whether it runs.  A Deferred that was called but is paused (`pause()`, or waiting for a Deferred
+returned by one of its callbacks - `St.paused`), or one examined from inside one of its own running callbacks, delivers nothing to
+a new callback and counts as having no result; `extract_result` raises `DeferredNotFired` for it. -/
 def cTrichotomy : Input → Trace → Bool
   | .history ops, .history obs _ _ _ =>
     ((ops.zip obs).filter isClassify) == ((ops.zip (declRun D.new ops).2).filter isClassify)
